@@ -13,25 +13,7 @@
 (* duplicates or groups (aggregates sub-lists first) them: the aggregate   *)
 (* must not change (commutativity, idempotence, associativity).            *)
 (***************************************************************************)
-EXTENDS QcBase, TLC, SequencesExt
-
-MASKED == -1
-
-Prec(f) == CASE f = MISSING -> 1 [] f = UNKNOWN -> 2 [] f = GOOD -> 3 [] f = SUSPECT -> 4 [] f = FAIL -> 5
-
-AggPoint(S) ==       \* S: the set of entries at one position
-    LET fl == S \cap Flags IN
-    IF fl = {} THEN MISSING ELSE CHOOSE f \in fl : \A g \in fl : Prec(g) <= Prec(f)
-
-Compare(vs) ==       \* vs: non-empty sequence of equal-length vectors
-    [i \in 1..Len(vs[1]) |-> AggPoint({ vs[j][i] : j \in 1..Len(vs) })]
-
-WellFormed(vs) == Len(vs) >= 1 /\ \A j \in 1..Len(vs) : Len(vs[j]) = Len(vs[1])
-
-\* "never better than the worst evaluated test": no input flag outranks the aggregate
-NeverBetter(vs, out) ==
-    \A i \in 1..Len(out) : \A j \in 1..Len(vs) :
-        vs[j][i] \in Flags => Prec(vs[j][i]) <= Prec(out[i])
+EXTENDS AggregateOps
 
 -----------------------------------------------------------------------------
 VARIABLES avecs,    \* the vectors the session started with
